@@ -180,11 +180,64 @@ def check_validators(R, prog, eff):
             R.ok("VALIDATORS", "%s returns the converted value" % name, fi.key, nontrivial=False)
 
 
+def semantic_error_msg(prog):
+    """fold error_msg over a few messages, widths and prefixes with print / sys replaced by recorders and textwrap by the library's own
+    functions: everything is printed to sys.stderr, every printed line starts with the current prefix, the words of the message are all
+    there in order"""
+    import textwrap
+    import types
+    from ..fold import Folder, Raised
+    from ..ql import Unknown
+    em = prog.func("cnfgen.clitools.msg", "error_msg")
+    mf = {n.name: n for n in em.module.tree.body if isinstance(n, ast.FunctionDef)}
+    cnt = 0
+    for prefix in ("", "c ", "c c "):
+        for msg in ("one line", "two\nlines of text", "  indented\n  block", "", ValueError("bad value: 3"), "word " * 30):
+            for fill in (None, 0, 20, 70):
+                out = []
+                ERR, OUT = object(), object()
+
+                def _print(*a, **k):
+                    out.append((" ".join(str(x) for x in a) + k.get("end", "\n"), k.get("file", OUT)))
+                f = Folder(env={})
+                f.module_functions = dict(mf)
+                f.globals = {"_prefix": prefix, "textwrap": types.SimpleNamespace(dedent=textwrap.dedent, fill=textwrap.fill, indent=textwrap.indent,
+                                                                                    wrap=textwrap.wrap),
+                             "sys": types.SimpleNamespace(stderr=ERR, stdout=OUT, stdin=types.SimpleNamespace(isatty=lambda: True)),
+                             "print": _print}
+                what = "error_msg(%r, filltext=%r) with the prefix %r" % (msg, fill, prefix)
+                try:
+                    f.call_function(em.node, [msg, fill], {})
+                except Raised as r:
+                    return False, "%s raises %s" % (what, r.cls)
+                except Unknown as e:
+                    return None, "cannot fold error_msg: %s" % e
+                if any(ch is not ERR for _, ch in out):
+                    return False, "%s prints to something else than sys.stderr" % what
+                text = "".join(t for t, _ in out)
+                if str(msg).strip() and not text.strip():
+                    return False, "%s prints nothing" % what
+                lines = text.split("\n")[:-1] if text.endswith("\n") else text.split("\n")
+                for ln in lines:
+                    if not ln.startswith(prefix) and (ln or str(msg).strip()):
+                        return False, "%s prints the line %r, which does not start with the prefix" % (what, ln)
+                if " ".join(ln[len(prefix):] for ln in lines).split() != str(msg).split():
+                    return False, "%s prints %r: the words of the message are not all there in order" % (what, text)
+                cnt += 1
+    return True, "%d (message, width, prefix) instances folded" % cnt
+
+
 def check_channel(R, prog):
     em = prog.func("cnfgen.clitools.msg", "error_msg")
+    sem = semantic_error_msg(prog)
     prints = [c for c in walk_shallow(em.node) if isinstance(c, ast.Call) and call_name(c) == "print"]
-    if prints and all(any(k.arg == "file" and src(k.value) == "sys.stderr" for k in c.keywords) for c in prints) and \
-            "textwrap.indent(msg, _prefix, lambda line: True)" in src(em.node):
+    shape = prints and all(any(k.arg == "file" and src(k.value) == "sys.stderr" for k in c.keywords) for c in prints) and \
+        "textwrap.indent(msg, _prefix, lambda line: True)" in src(em.node)
+    if sem[0] is False:
+        R.bad(F("ERR-CHANNEL", em, "error_msg", "error messages must go to sys.stderr with every line prefixed: %s" % sem[1]))
+    elif sem[0] is True:
+        R.ok("ERR-CHANNEL", "error_msg prefixes every line with the current prefix and prints to stderr (%s)" % sem[1], em.key)
+    elif shape:
         R.ok("ERR-CHANNEL", "error_msg prefixes every line with the current prefix and prints to stderr", em.key)
     else:
         R.bad(F("ERR-CHANNEL", em, "error_msg", "error messages must go to sys.stderr with every line prefixed"))
